@@ -379,4 +379,89 @@ theorem lzma1Encode_sound (p : Props) (dictSize : Nat) (buf : ByteArray) (base :
     rw [← hrest]
     simp only [LzmaEnc.flush, encode_eq, rcEncode, encOps_append, heo, hunc]
 
+/-! ### with an output-size limit (MicroLZMA) -/
+
+/-- invariant of the trace loop with an output limit: as `EncInv`, the `stopped` flag is free -/
+def EncInvL (p : Props) (dictSize : Nat) (buf : ByteArray) (base : Nat) (s : EncLoopSt) : Prop :=
+  base + s.2.1 ≤ buf.size ∧ s.1.uncompSize = s.2.1 ∧
+    ∃ syms ops, encSyms p dictSize syms 0 {} (win buf base) = some (ops, s.2.1, s.1.st, win buf (base + s.2.1)) ∧
+      encOps (initProbs p) Enc.init ops = (s.1.probs, s.1.rc)
+
+theorem lzma1Body_stepL (p : Props) (dictSize outLimit : Nat) (buf : ByteArray) (base : Nat) (tr : Array TraceRec) (i : Nat)
+    (s : EncLoopSt) (hinv : EncInvL p dictSize buf base s) :
+    match lzma1Body p dictSize outLimit buf base tr i s with
+    | .ok (.yield s') => EncInvL p dictSize buf base s'
+    | .ok (.done s') => EncInvL p dictSize buf base s'
+    | .error _ => True := by
+  obtain ⟨hle, hunc, syms, ops, henc, heo⟩ := hinv
+  unfold lzma1Body
+  by_cases h0 : s.2.2.2 = true
+  · rw [if_pos h0]; trivial
+  rw [if_neg h0]
+  by_cases h1 : (tr[i]!.kind == 1) = true
+  · rw [if_pos h1]; trivial
+  rw [if_neg h1]
+  by_cases h2 : (tr[i]!.kind != 0) = true
+  · rw [if_pos h2]; trivial
+  rw [if_neg h2]
+  by_cases h3 : (tr[i]!.pos != s.1.uncompSize % 4294967296) = true
+  · rw [if_pos h3]; trivial
+  rw [if_neg h3]
+  cases hck : checkSym dictSize buf base s.2.1 s.1.st tr[i]!.back tr[i]!.len with
+  | error e => trivial
+  | ok x =>
+    obtain ⟨sym, prev, mb⟩ := x
+    obtain ⟨hsz, hprev, hmb, happ, hlen⟩ := checkSym_sound dictSize buf base s.2.1 s.1.st _ _ hck
+    simp only [bind, Except.bind, pure, Except.pure]
+    by_cases hd : (outLimit != 0 && encodeDummy s.1.probs s.1.rc (symOps p s.1.st s.1.uncompSize prev mb sym).1 outLimit) = true
+    · rw [if_pos hd]
+      by_cases hlast : (decide (i + 1 < tr.size) && tr[i + 1]!.kind == 1 && i + 2 == tr.size) = true
+      · rw [if_pos hlast]; exact ⟨hle, hunc, syms, ops, henc, heo⟩
+      · rw [if_neg hlast]; trivial
+    · rw [if_neg hd]
+      refine ⟨by simp only []; omega, by simp only [encode_eq]; omega, syms ++ [sym],
+        ops ++ (symOps p s.1.st s.1.uncompSize prev mb sym).1, ?_, ?_⟩
+      · rw [encSyms_append, henc]
+        simp only [encSyms, happ, hunc, ← hprev, ← hmb, hlen, Nat.add_assoc, List.append_nil]
+      · rw [encOps_append, heo]
+        simp only [encode_eq]
+
+/-- The executable LZMA1 encoder model with an output limit and without end marker (MicroLZMA): the accepted symbols are
+    a valid description of the first `consumed` bytes, and the output is `rc_reset`, their operations, `rc_flush`. -/
+theorem lzma1Encode_sound_limit (p : Props) (dictSize outLimit : Nat) (hlim : outLimit ≠ 0) (buf : ByteArray) (base : Nat)
+    (tr : Array TraceRec) (res : EncResult) (hbase : base ≤ buf.size)
+    (h : lzma1Encode p dictSize false outLimit buf base tr = .ok res) :
+    ∃ syms ops posF stF, encSyms p dictSize syms 0 {} (win buf base) = some (ops, posF, stF, win buf (base + res.consumed)) ∧
+      res.out = (rcEncode (initProbs p) ops).1 ∧ base + res.consumed ≤ buf.size := by
+  rw [lzma1Encode_eq] at h
+  obtain ⟨s, hloop, hrest⟩ := except_bind_ok h
+  have hinit : EncInvL p dictSize buf base
+      (if (base == 0 && decide (buf.size - base > 0)) = true then
+        (({ (LzmaEnc.new p).encode (initOps (buf.get! 0)) with uncompSize := 1 }, 1, 1, false) : EncLoopSt)
+       else (LzmaEnc.new p, 0, 0, false)) := by
+    by_cases hfirst : (base == 0 && decide (buf.size - base > 0)) = true
+    · rw [if_pos hfirst]
+      simp only [Bool.and_eq_true, beq_iff_eq, decide_eq_true_eq] at hfirst
+      obtain ⟨rfl, hpos⟩ := hfirst
+      refine ⟨by simp only []; omega, rfl, [.lit (buf.get! 0)], initOps (buf.get! 0), ?_, encode_pair_first p _⟩
+      have hw0 : win buf 0 = [] := by simp [win]
+      have hw1 : win buf (0 + 1) = [buf.get! 0] := by rw [win_succ buf 0 (by omega), hw0]
+      simp only [encSyms, hw0, applySym, prevByte, matchByte, List.getElem?_nil, symOps_init, List.append_nil, Sym.len]
+      rw [hw1]
+      rfl
+    · rw [if_neg hfirst]
+      exact ⟨by simp only []; omega, rfl, [], [], rfl, encode_pair (LzmaEnc.new p) []⟩
+  have hfin := forIn_except_inv (lzma1Body p dictSize outLimit buf base tr) (EncInvL p dictSize buf base) _
+    (fun _ s => EncInvL p dictSize buf base s) 0
+    (fun i hi b hP => by
+      have := lzma1Body_stepL p dictSize outLimit buf base tr (List.range' 0 [:tr.size].size)[i] b hP
+      split <;> rename_i heq <;> rw [heq] at this <;> exact this)
+    (fun b hP => hP) _ s hinit hloop
+  obtain ⟨hle, hunc, syms, ops, henc, heo⟩ := hfin
+  have hl0 : (outLimit == 0) = false := by simpa using hlim
+  simp only [hl0, Bool.false_and, Bool.false_eq_true, if_false, pure, Except.pure, Except.ok.injEq] at hrest
+  refine ⟨syms, ops, s.2.1, s.1.st, by rw [← hrest]; exact henc, ?_, by rw [← hrest]; exact hle⟩
+  rw [← hrest]
+  simp only [LzmaEnc.flush, rcEncode, heo]
+
 end XzVerif.LzmaExec
